@@ -54,8 +54,10 @@ def outcome_stream(res) -> Any:
     return out
 
 
-def digest_case(case: Dict[str, Any]) -> Dict[str, Any]:
-    res = run_case(case, {"fundamentals": True})
+def digest_case(case: Dict[str, Any], logger=None) -> Dict[str, Any]:
+    """logger: a Logger instance to hand to the runner (the C07 worker reuses ONE instance for all the runs of a process, as a
+    loop over seeds would)"""
+    res = run_case(case, {"fundamentals": True, "logger_instance": logger})
     stream = outcome_stream(res)
     data = json.dumps(stream, sort_keys=True).encode()
     return {"digest": hashlib.sha256(data).hexdigest(), "records": len(stream), "settings_unchanged": res.settings_before == res.settings_after,
